@@ -5,6 +5,7 @@ import TsrunVerif.Driver.Json
 import TsrunVerif.Driver.RegAlloc
 import TsrunVerif.Driver.Pos
 import TsrunVerif.Driver.Mod
+import TsrunVerif.Driver.Orders
 
 /-! `tvdriver <model>`: line protocol, one observation line per case line. -/
 
@@ -26,5 +27,6 @@ def main (args : List String) : IO UInt32 := do
   | ["regalloc"] => loop stdin stdout TsrunVerif.Driver.raLine; return 0
   | ["pos"] => loop stdin stdout TsrunVerif.Driver.posLine; return 0
   | ["mod"] => loop stdin stdout TsrunVerif.Driver.modLine; return 0
+  | ["orders"] => loop stdin stdout TsrunVerif.Driver.ordersLine; return 0
   | ["heap"] => loop stdin stdout TsrunVerif.Driver.heapLine; return 0
   | _ => IO.eprintln "usage: tvdriver <model>"; return 2
